@@ -580,6 +580,21 @@ type poolCfg struct {
 	as, gs, aq, gq, bump   uint64
 	nolocals               bool
 	nsenders, nops         int
+	st                     []acct                 // optional fixed initial state (directed histories)
+	gp                     int64                  // optional fixed price limit
+	script                 func(w *world) []sop   // optional directed history instead of generated operations
+}
+
+// sop is one planned operation: a submission, a price threshold or a head change.
+type sop struct {
+	kind         string // "add" | "gasprice" | "head"
+	class        string
+	t            *mtx
+	local        bool
+	price        int64
+	nb           *blockInfo // new head (the old one is the current head)
+	reinjectWant []*mtx
+	touched      []int
 }
 
 func (w *world) curToken(b *blockInfo) string {
@@ -754,6 +769,9 @@ func (w *world) runHistory(pc poolCfg) {
 	}
 	gasLimit := uint64(1000000)
 	gp := int64(1 + r.Intn(3)*50)
+	if pc.st != nil {
+		st, gp = copySt(pc.st), pc.gp
+	}
 	cfg := core.TxPoolConfig{Journal: "", Rejournal: 0, PriceLimit: uint64(gp), PriceBump: pc.bump, AccountSlots: pc.as, GlobalSlots: pc.gs,
 		AccountQueue: pc.aq, GlobalQueue: pc.gq, Lifetime: 1000 * 3600 * 1e9, NoLocals: pc.nolocals}
 	w.cfg = cfg
@@ -787,18 +805,32 @@ func (w *world) runHistory(pc poolCfg) {
 		return
 	}
 	before := w.view(s0)
+	var scripted []sop
+	if pc.script != nil {
+		scripted = pc.script(w)
+		pc.nops = len(scripted)
+	}
 	for opn := 0; opn < pc.nops; opn++ {
 		var kind, args, desc, want, class string
 		extraRel := map[int]bool{}
 		var panicked bool
 		var pv interface{}
-		switch k := r.Intn(100); {
-		case k < 62: // submission
-			t, cl := w.genTx(before)
-			local := r.Chance(15)
-			kind, class = "addr", "add-remote/"+cl
+		var plan sop
+		if scripted != nil {
+			plan = scripted[opn]
+		} else {
+			plan = w.planRandom(before)
+		}
+		for _, a := range plan.touched {
+			extraRel[a] = true
+		}
+		class = plan.class
+		switch plan.kind {
+		case "add":
+			t, local := plan.t, plan.local
+			kind = "addr"
 			if local {
-				kind, class = "addl", "add-local/"+cl
+				kind = "addl"
 			}
 			args = t.token()
 			desc = kind + " " + args
@@ -824,64 +856,15 @@ func (w *world) runHistory(pc poolCfg) {
 					}
 				}
 			}
-		case k < 69: // price threshold
-			p := int64(1 + r.Intn(400))
-			if r.Chance(30) {
-				p = 1
-			}
-			kind, args, class = "gasprice", fmt.Sprint(p), "set-gas-price"
+		case "gasprice":
+			p := plan.price
+			kind, args = "gasprice", fmt.Sprint(p)
 			desc = kind + " " + args
 			panicked, pv = vh.CatchPanic(func() { w.pool.SetGasPrice(big.NewInt(p)) })
 			want = "done"
 		default: // new head
 			old := w.chain.head
-			var nb *blockInfo
-			var reinjectWant []*mtx
-			if k < 88 || old.block.NumberU64() == 0 { // advance: mine a prefix of pending for some senders
-				class = "head/advance"
-				nb = w.mineOn(old, before, nil)
-			} else { // reorganisation: fork 1..3 blocks back
-				class = "head/reorg"
-				depth := 1 + r.Intn(3)
-				anc := old
-				var discarded []*mtx
-				for i := 0; i < depth && anc.block.NumberU64() > 0; i++ {
-					for _, tx := range anc.block.Transactions() {
-						discarded = append(discarded, w.txs[tx.Hash()])
-					}
-					anc = w.chain.blocks[anc.block.ParentHash()]
-				}
-				nlen := depth + r.Intn(3) - 1
-				if nlen < 1 {
-					nlen = 1
-				}
-				if r.Chance(4) {
-					nlen = 70 // too deep: the pool skips the reinjection
-					class = "head/reorg-deep"
-				}
-				cur := anc
-				incl := map[int]bool{}
-				for i := 0; i < nlen; i++ {
-					var pickFrom []*mtx
-					if i == 0 {
-						pickFrom = discarded
-					}
-					cur = w.mineOn(cur, view{}, pickFrom)
-					for _, tx := range cur.block.Transactions() {
-						incl[w.txs[tx.Hash()].id] = true
-					}
-				}
-				nb = cur
-				for _, t := range discarded {
-					extraRel[t.from] = true
-					if !incl[t.id] {
-						reinjectWant = append(reinjectWant, t)
-					}
-				}
-				if nlen == 70 {
-					reinjectWant = nil
-				}
-			}
+			nb, reinjectWant := plan.nb, plan.reinjectWant
 			w.chain.mu.Lock()
 			w.chain.head = nb
 			w.chain.mu.Unlock()
@@ -958,6 +941,69 @@ func (w *world) runHistory(pc poolCfg) {
 	}
 }
 
+// planRandom draws the next operation of a generated history.
+func (w *world) planRandom(before view) sop {
+	r := w.r
+	switch k := r.Intn(100); {
+	case k < 62: // submission
+		t, cl := w.genTx(before)
+		if r.Chance(15) {
+			return sop{kind: "add", class: "add-local/" + cl, t: t, local: true}
+		}
+		return sop{kind: "add", class: "add-remote/" + cl, t: t}
+	case k < 69: // price threshold
+		p := int64(1 + r.Intn(400))
+		if r.Chance(30) {
+			p = 1
+		}
+		return sop{kind: "gasprice", class: "set-gas-price", price: p}
+	default: // new head
+		old := w.chain.head
+		if k < 88 || old.block.NumberU64() == 0 { // advance: mine a prefix of pending for some senders
+			return sop{kind: "head", class: "head/advance", nb: w.mineOn(old, before, nil)}
+		}
+		// reorganisation: fork 1..3 blocks back
+		plan := sop{kind: "head", class: "head/reorg"}
+		depth := 1 + r.Intn(3)
+		anc := old
+		var discarded []*mtx
+		for i := 0; i < depth && anc.block.NumberU64() > 0; i++ {
+			for _, tx := range anc.block.Transactions() {
+				discarded = append(discarded, w.txs[tx.Hash()])
+			}
+			anc = w.chain.blocks[anc.block.ParentHash()]
+		}
+		nlen := depth + r.Intn(3) - 1
+		if nlen < 1 {
+			nlen = 1
+		}
+		if r.Chance(4) {
+			nlen = 70 // too deep: the pool skips the reinjection
+			plan.class = "head/reorg-deep"
+		}
+		cur := anc
+		incl := map[int]bool{}
+		for i := 0; i < nlen; i++ {
+			var pickFrom []*mtx
+			if i == 0 {
+				pickFrom = discarded
+			}
+			cur = w.mineOn(cur, view{}, pickFrom)
+			for _, tx := range cur.block.Transactions() {
+				incl[w.txs[tx.Hash()].id] = true
+			}
+		}
+		plan.nb = cur
+		for _, t := range discarded {
+			plan.touched = append(plan.touched, t.from)
+			if !incl[t.id] && nlen != 70 {
+				plan.reinjectWant = append(plan.reinjectWant, t)
+			}
+		}
+		return plan
+	}
+}
+
 // mineOn builds a child of parent.  With a view it takes prefixes of the pool's pending lists
 // (what a miner would do); with pickFrom it re-includes per-sender prefixes of those transactions.
 func (w *world) mineOn(parent *blockInfo, v view, pickFrom []*mtx) *blockInfo {
@@ -992,7 +1038,9 @@ func (w *world) mineOn(parent *blockInfo, v view, pickFrom []*mtx) *blockInfo {
 			take(l[:1+r.Intn(len(l))])
 		}
 	}
-	// transactions the pool never saw, balance changes
+	// transactions the pool never saw; incoming transfers.  A balance goes down only through the account's own
+	// transactions (so every chain is self-consistent); a reorganisation can still lower it, because the new
+	// branch is built from the ancestor's state and lacks the old branch's incoming transfers.
 	for a := range st {
 		switch k := r.Intn(100); {
 		case k < 6: // transactions the pool never saw (a real chain advances a nonce only through a transaction)
@@ -1007,10 +1055,18 @@ func (w *world) mineOn(parent *blockInfo, v view, pickFrom []*mtx) *blockInfo {
 			}
 		case k < 18:
 			st[a].bal.Add(st[a].bal, big.NewInt(int64(r.Intn(80000000))))
-		case k < 24:
-			st[a].bal.Div(st[a].bal, big.NewInt(int64(2+r.Intn(3))))
-		case k < 26:
-			st[a].bal = big.NewInt(int64(r.Intn(30000)))
+		case k < 26: // the account spends most of its balance in a transaction the pool never saw
+			keep := int64(2 + r.Intn(3))
+			if k >= 24 {
+				keep = 3000
+			}
+			val := new(big.Int).Sub(st[a].bal, new(big.Int).Div(st[a].bal, big.NewInt(keep)))
+			t := w.mkTx(a, st[a].nonce, w.uniquePrice(int64(5000+r.Intn(1000))), 21000, val, nil, false)
+			if t.cost().Cmp(st[a].bal) <= 0 {
+				st[a].nonce++
+				st[a].bal.Sub(st[a].bal, t.cost())
+				txs = append(txs, t)
+			}
 		}
 	}
 	gas := parent.gas
@@ -1020,6 +1076,52 @@ func (w *world) mineOn(parent *blockInfo, v view, pickFrom []*mtx) *blockInfo {
 		gas = []uint64{21500, 22500}[r.Intn(2)]
 	}
 	return w.newBlock(parent, parent.block.NumberU64()+1, txs, st, gas)
+}
+
+// ---------------------------------------------------------------- directed histories (run on every seed)
+
+// directedLeak: former finding removetx-leaks-all-index (fixed in /repo): raise the price threshold above the
+// first pending transaction of an account; its successor must be re-queued, not left in pool.all only.
+func directedLeak(w *world) []sop {
+	t0 := w.mkTx(0, 0, big.NewInt(5), 21000, big.NewInt(100), nil, false)
+	t1 := w.mkTx(0, 1, big.NewInt(100), 21000, big.NewInt(100), nil, false)
+	return []sop{{kind: "add", class: "directed/leak", t: t0}, {kind: "add", class: "directed/leak", t: t1},
+		{kind: "gasprice", class: "directed/leak", price: 50}, {kind: "add", class: "directed/leak-resubmit", t: t1}}
+}
+
+// directedGap: finding reset-reinject-leaves-gap-in-pending on a self-consistent chain.
+//   block0: A has nonce 0 and a small balance.          block1: A receives a large transfer.
+//   pool: A submits nonces 0..3; nonce 1 moves a large value (needs the transfer), the others are cheap.
+//   block2 (on block1) mines nonces 0 and 1: pending = [2,3].
+//   reorganisation to block1'-block2' (a branch without the transfer, same height): A is back at nonce 0 with the
+//   small balance.  reset reinjects nonces 0 and 1; nonce 1 now fails validateTx (insufficient funds); nonce 0 is
+//   promoted into the old pending list [2,3] before demoteUnexecutables runs, and demote only looks for a gap in front.
+func directedGap(w *world) []sop {
+	b0 := w.chain.head
+	small := b0.st[0].bal
+	st1 := copySt(b0.st)
+	st1[0].bal.Add(st1[0].bal, big.NewInt(100000000))
+	b1 := w.newBlock(b0, 1, nil, st1, 1000000)
+	t0 := w.mkTx(0, 0, big.NewInt(10), 21000, big.NewInt(100), nil, false)
+	t1 := w.mkTx(0, 1, big.NewInt(11), 21000, big.NewInt(50000000), nil, false)
+	t2 := w.mkTx(0, 2, big.NewInt(12), 21000, big.NewInt(100), nil, false)
+	t3 := w.mkTx(0, 3, big.NewInt(13), 21000, big.NewInt(100), nil, false)
+	st2 := copySt(st1)
+	st2[0].nonce = 2
+	st2[0].bal.Sub(st2[0].bal, t0.cost())
+	st2[0].bal.Sub(st2[0].bal, t1.cost())
+	b2 := w.newBlock(b1, 2, []*mtx{t0, t1}, st2, 1000000)
+	st1f := copySt(b0.st) // the other branch: no transfer, nothing of A included
+	_ = small
+	b1f := w.newBlock(b0, 1, nil, st1f, 1000000)
+	b2f := w.newBlock(b1f, 2, nil, copySt(st1f), 1000000)
+	return []sop{
+		{kind: "head", class: "directed/gap", nb: b1},
+		{kind: "add", class: "directed/gap", t: t0}, {kind: "add", class: "directed/gap", t: t1},
+		{kind: "add", class: "directed/gap", t: t2}, {kind: "add", class: "directed/gap", t: t3},
+		{kind: "head", class: "directed/gap", nb: b2},
+		{kind: "head", class: "directed/gap-reorg", nb: b2f, reinjectWant: []*mtx{t0}, touched: []int{0}},
+	}
 }
 
 // ---------------------------------------------------------------- concurrent variant (direct oracle only)
@@ -1127,6 +1229,11 @@ func main() {
 		k, _ := btcec.PrivKeyFromBytes(crypto.Keccak256([]byte(fmt.Sprintf("c15-sender-%d", i))))
 		w.keys = append(w.keys, k)
 	}
+	// directed histories first, on every seed
+	w.runHistory(poolCfg{name: "default", as: 16, gs: 4096, aq: 64, gq: 1024, bump: 10, nsenders: 2, gp: 1,
+		st: []acct{{0, big.NewInt(100000000)}, {0, big.NewInt(100000000)}}, script: directedLeak})
+	w.runHistory(poolCfg{name: "default", as: 16, gs: 4096, aq: 64, gq: 1024, bump: 10, nsenders: 2, gp: 1,
+		st: []acct{{0, big.NewInt(1000000)}, {0, big.NewInt(100000000)}}, script: directedGap})
 	nh := c.Scale(100, 6000)
 	for i := 0; i < nh; i++ {
 		var pc poolCfg
